@@ -358,7 +358,8 @@ class HistogramBase(abc.ABC):
         if self._errors2 is not None:
             self._errors2 = self._errors2.astype(value)
         if self._missed is not None:
-            self._missed = self._missed.astype(value)
+            missed_dtype = getattr(self, "_missed_dtype", lambda dtype: dtype)(value)
+            self._missed = self._missed.astype(missed_dtype)
 
     def _coerce_dtype(self, other_dtype: DTypeLike) -> None:
         """Possibly change the bin content type to allow correct operations with other operand.
@@ -965,7 +966,7 @@ class HistogramBase(abc.ABC):
                 errors2 = (adapted_self.errors2 + adapted_other.errors2).astype(
                     new_dtype
                 )
-                missed = (self._missed - other._missed).astype(new_dtype)
+                missed = self._missed - other._missed
                 self._coerce_dtype(new_dtype)
                 self.frequencies = frequencies
                 self.errors2 = errors2
